@@ -323,6 +323,7 @@ inductive Ev where
   | qreset
   | freed
   | fault
+  | rset | mail | rcpt              -- RSET done, MAIL FROM: / RCPT TO: accepted
   deriving DecidableEq, Repr
 
 /-- scripted environment (all answers of the queue side) and the build-time buffer size -/
@@ -589,6 +590,38 @@ def smtpBdat (e : Env) (line : List Byte) (st : Rx) : Res × Rx :=
       | .done st => afterLoop e line isLast st
 
 def bdatVerb : List Byte := [98, 100, 97, 116]   -- "bdat"
+def rsetVerb : List Byte := [114, 115, 101, 116]  -- "rset"
+def mailVerb : List Byte := [109, 97, 105, 108, 32, 102, 114, 111, 109, 58]   -- "mail from:"
+def rcptVerb : List Byte := [114, 99, 112, 116, 32, 116, 111, 58]             -- "rcpt to:"
+
+/-- `smtp_rset()` followed by the state change of the command loop (`esmtp` is set in the harness):
+an open BDAT transfer is dropped (`queue_reset()`), the transaction data are freed -/
+def smtpRset (st : Rx) : Rx :=
+  let st1 := if st.comstate = Gen.rsetBdatState then queueReset st else st
+  let st2 := if st1.comstate ≥ Gen.rsetHeloState then freedata st1 else st1
+  let newstate := if st1.comstate ≥ Gen.rsetHeloState then Gen.rsetHeloState <<< 1 else Gen.rsetState
+  { (st2.ev (.reply Gen.rsetReply)).ev .rset with comstate := newstate }
+
+/-- the other rows of `commands[]` a BDAT transaction lives between, as the harness runs them:
+RSET as in `smtp_rset()`, MAIL FROM: and RCPT TO: reduced to their effect on the state machine.
+`none`: the line is none of them. -/
+def rsetRow (st : Rx) : Rx := if st.comstate &&& Gen.rsetMask = 0 then st.ev .seq else smtpRset st
+
+/-- MAIL FROM: as far as the state machine goes -/
+def mailRow (st : Rx) : Rx :=
+  if st.comstate &&& Gen.mailMask = 0 then st.ev .seq else { st.ev .mail with comstate := Gen.mailState }
+
+/-- RCPT TO: as far as the state machine goes: one more good recipient -/
+def rcptRow (st : Rx) : Rx :=
+  if st.comstate &&& Gen.rcptMask = 0 then st.ev .seq
+  else { st.ev .rcpt with comstate := Gen.rcptState, goodrcpt := st.goodrcpt + 1 }
+
+def otherRow (l : List Byte) (st : Rx) : Option Rx :=
+  let s := cstr l
+  if (s.take 4).map lower = rsetVerb ∧ s.length = 4 then some (rsetRow st)
+  else if (s.take 10).map lower = mailVerb then some (mailRow st)
+  else if (s.take 8).map lower = rcptVerb then some (rcptRow st)
+  else none
 
 /-- the command loop of the harness = the BDAT row of `smtploop()` -/
 def session (e : Env) (fuel : Nat) (st : Rx) : Rx :=
@@ -602,6 +635,9 @@ def session (e : Env) (fuel : Nat) (st : Rx) : Rx :=
       if n = ECONNRESET then st else session e fuel st
     | (.line l, rd) =>
       let st := { st with rd := rd }
+      match otherRow l st with
+      | some st' => session e fuel st'
+      | none =>
       if ((cstr l).take 4).map lower ≠ bdatVerb then session e fuel (st.ev (.other l))
       else if st.comstate &&& Gen.bdatMask = 0 then session e fuel (st.ev .seq)
       else if l.length > 510 then session e fuel (st.ev .long)
